@@ -1,11 +1,14 @@
 // scan: C17 (and the table behind C04/C05/C06).
 // Part A — exact-layout correspondence: random histories of store / remove / scan on one
-//   redisDict (hook exports) against the Lean `Dict` model instantiated with the Lean SipHash:
-//   table size, item count, the bucket of every key and every scan result are compared step by step.
+//
+//	redisDict (hook exports) against the Lean `Dict` model instantiated with the Lean SipHash:
+//	table size, item count, the bucket of every key and every scan result are compared step by step.
+//
 // Part B — the property itself on SCAN / HSCAN / SSCAN: full iterations with random COUNT / MATCH /
-//   TYPE while other elements are added and removed (tables growing and shrinking) between calls:
-//   every element present throughout is returned, nothing never present is returned, and a quiet
-//   iteration terminates within the number of buckets.
+//
+//	TYPE while other elements are added and removed (tables growing and shrinking) between calls:
+//	every element present throughout is returned, nothing never present is returned, and a quiet
+//	iteration terminates within the number of buckets.
 package main
 
 import (
